@@ -318,5 +318,12 @@ pub fn run(_ctx: &Ctx) -> Vec<Eng> {
             e.caps.push("built without --cfg rrtk_verif: scratch arrays are not poisoned in this run".to_string());
         }
     }
-    vec![e1, e2, e3, e4]
+    let mut e5 = Eng::new(
+        "c16-reference-liveness",
+        "every Reference variant of the build: all sequences of 4 operations over {clone, to_dyn! (also attempted on the variants the macro does not list: a Reference it hands out counts), read, write, drop} x 3 handle slots on a target with a drop flag, plus the 10 to_dyn! argument forms (engine shared with C17): the target of an Rc/Arc-backed Reference must stay alive exactly as long as a handle derived from it in safe code exists - a handle that survives its target is a dangling Reference obtained without `unsafe`",
+        "15^4 sequences x variants of the build; 10 argument forms x listed variants x 3 layouts",
+    );
+    crate::c17::liveness(&mut e5, 4, Budget::secs(120));
+    rekey(&mut e5, "dangling");
+    vec![e1, e2, e3, e4, e5]
 }
